@@ -308,6 +308,17 @@ func (x *Exec) applyContract(st *State, fr *Frame, retTo ssa.Value, c *Contract,
 			env.vars[n] = x.normArg(st, args[k])
 		}
 	}
+	if sig != nil {
+		env.statics = map[string]types.Type{}
+		off := 0
+		if sig.Recv() != nil && len(names) > 0 {
+			env.statics[names[0]] = sig.Recv().Type()
+			off = 1
+		}
+		for k := 0; k < sig.Params().Len() && k+off < len(names); k++ {
+			env.statics[names[k+off]] = sig.Params().At(k).Type()
+		}
+	}
 	for _, un := range c.Uses {
 		ue := &specEnv{x: x, st: st, vars: map[string]Val{}, frame: fr, pos: pos, where: "uses " + un}
 		for _, p := range fr.fn.Params {
@@ -376,7 +387,7 @@ func (x *Exec) applyContract(st *State, fr *Frame, retTo ssa.Value, c *Contract,
 		}
 	}
 	mkEnv := func(s *State) *specEnv {
-		e := &specEnv{x: x, st: s, vars: map[string]Val{}, old: old, oldVars: oldVars, where: "call of " + key, callSite: true}
+		e := &specEnv{x: x, st: s, vars: map[string]Val{}, old: old, oldVars: oldVars, where: "call of " + key, callSite: true, statics: env.statics}
 		for k, v := range oldVars {
 			e.vars[k] = v
 		}
